@@ -22,7 +22,8 @@ field comments say "or net.Dialer.Timeout if expiring earlier"); the buffer when
 nothing selects a size.
 
 Mutants (checks/mutants/X07), all exit 1:
-  own-before-timeout     readTimeout prefers ReadTimeout to Timeout          GEN client/xchg:read-deadline:*, TV xchg
+  own-before-timeout     readTimeout prefers ReadTimeout to Timeout and getTimeoutForRequest no longer re-applies Timeout
+                         (either change alone is equivalent: the override is coded twice)   GEN client/xchg:read-deadline:*, TV xchg
   dialer-always          Dialer.Timeout wins even when larger                GEN client/xchg:*-deadline:dialer-timeout-set:*, TV
   ctx-not-for-read       context deadline not applied to the read deadline   GEN client/xchg:read-deadline:*, TV
   write-uses-read        write deadline computed from readTimeout()          GEN client/xchg:write-deadline:*
